@@ -331,6 +331,58 @@ mod verif_replay_static_early {
 }
 '''
 
+STATIC_TEST_UNTOUCHED = r'''
+#[cfg(test)]
+mod verif_replay_static_untouched {
+    use super::*;
+    use std::time::Duration;
+    /// An UNEXPIRED timeout must leave the market as the workers left it: a market the workers
+    /// closed stays closed, queued batches and counters are not altered by the polling thread.
+    #[test]
+    fn verif_unexpired_timeout_leaves_market_untouched() {
+        let b: JobBroker<usize> = JobBroker::new(2, Some(SystemTime::now() + Duration::from_secs(3600)));
+        std::thread::sleep(Duration::from_millis(100));
+        drop(b.clone()); // a worker leaves: its Drop closes the market
+        assert!(!b.market.lock().open);
+        std::thread::sleep(Duration::from_millis(1300)); // at least one more poll of the timeout thread
+        assert!(!b.market.lock().open, "VIOLATION market altered by an unexpired timeout: closed market is open again");
+        let mut c: JobBroker<usize> = JobBroker::new(2, Some(SystemTime::now() + Duration::from_secs(3600)));
+        c.push((0..3).collect());
+        std::thread::sleep(Duration::from_millis(1300));
+        {
+            let m = c.market.lock();
+            assert!(m.open && m.open_count == 2 && m.thread_count == 2 && m.job_batches.len() == 1, "VIOLATION market altered by an unexpired timeout: open market changed");
+        }
+        assert!(c.pop().len() == 3, "VIOLATION market altered by an unexpired timeout: queued batch changed");
+    }
+}
+'''
+
+STATIC_TEST_SLEEPER = r'''
+#[cfg(test)]
+mod verif_replay_static_sleeper {
+    use super::*;
+    use std::time::Duration;
+    /// A worker asleep in pop() when the timeout closes the market must be woken and return.
+    #[test]
+    fn verif_timeout_wakes_sleeping_worker() {
+        let b: JobBroker<usize> = JobBroker::new(2, Some(SystemTime::now() + Duration::from_millis(300)));
+        let mut w = b.clone();
+        let (tx, rx) = std::sync::mpsc::channel();
+        std::thread::spawn(move || {
+            let jobs = w.pop(); // no batch, the other worker is active: sleeps
+            let _ = tx.send(jobs.len());
+            std::mem::forget(w); // the demonstration is about the timeout thread's own Drop, not this worker's
+        });
+        match rx.recv_timeout(Duration::from_millis(300 + 1000 + 2000)) {
+            Ok(n) => assert_eq!(n, 0),
+            Err(_) => panic!("VIOLATION sleeper not woken: worker still asleep in pop() 2 s after the timeout closed the market"),
+        }
+        std::mem::forget(b);
+    }
+}
+'''
+
 STATIC_TEST_LATE = r'''
 #[cfg(test)]
 mod verif_replay_static_late {
@@ -373,6 +425,10 @@ def replay_static(d, pid, v):
         return _native_test(d, STATIC_TEST_EARLY, "verif_timeout_not_before_deadline", "VIOLATION market closed")
     if pid == "C12" and ("market closed once the closing time has passed" in v["obligation"] or "never goes back to sleep once the closing time has passed" in v["obligation"]):
         return _native_test(d, STATIC_TEST_LATE, "verif_timeout_closes_after_deadline", "VIOLATION market still open")
+    if pid == "C12" and "an unexpired timeout leaves the market untouched" in v["obligation"]:
+        return _native_test(d, STATIC_TEST_UNTOUCHED, "verif_unexpired_timeout_leaves_market_untouched", "VIOLATION market altered")
+    if pid == "C12" and "wakes every waiter" in v["obligation"]:
+        return _native_test(d, STATIC_TEST_SLEEPER, "verif_timeout_wakes_sleeping_worker", "VIOLATION sleeper not woken")
     if pid == "C12" and "not sleeping while holding the market mutex" in v["obligation"]:
         sr = os.path.join(d, "pristine")
         p = os.path.join(sr, "src", "job_market.rs")
